@@ -553,22 +553,38 @@ impl Task {
     /// permitted to spuriously wake up the thread (though it will still not count as a live thread
     /// for deadlock detection purposes for as long as it remains blocked).
     pub fn block(&mut self, allow_spurious_wakeups: bool) {
+        // With the hooks on and backtraces disabled the assignment is skipped: the field is `None` already, and
+        // `Backtrace`'s drop glue on the old value is costly to encode for the solver.
+        #[cfg(feature = "verif-hooks")]
+        let verif_capture = backtrace_enabled();
+        #[cfg(not(feature = "verif-hooks"))]
+        let verif_capture = true;
+        if verif_capture {
         self.backtrace = if backtrace_enabled() {
             Some(Backtrace::force_capture())
         } else {
             None
         };
+        }
 
         assert!(self.state != TaskState::Finished);
         self.state = TaskState::Blocked { allow_spurious_wakeups };
     }
 
     pub fn sleep(&mut self) {
+        // With the hooks on and backtraces disabled the assignment is skipped: the field is `None` already, and
+        // `Backtrace`'s drop glue on the old value is costly to encode for the solver.
+        #[cfg(feature = "verif-hooks")]
+        let verif_capture = backtrace_enabled();
+        #[cfg(not(feature = "verif-hooks"))]
+        let verif_capture = true;
+        if verif_capture {
         self.backtrace = if backtrace_enabled() {
             Some(Backtrace::force_capture())
         } else {
             None
         };
+        }
 
         assert!(self.state != TaskState::Finished);
         self.state = TaskState::Sleeping;
